@@ -125,7 +125,7 @@ class Execution(object):
     def op_of(self, pending):
         if pending is None:
             return None
-        if pending[0] in ("Acq", "Rel"):
+        if pending[0] in ("Acq", "Rel", "Obs"):
             return (pending[0], pending[1].name)
         if pending[0] in ("Rd", "Wr"):
             return (pending[0], self.obj_name.get(id(pending[2]), "?"))
@@ -135,7 +135,7 @@ class Execution(object):
         t = self.s.ts[name]
         if t.finished or t.pending is None:
             return False
-        return not (t.pending[0] == "Acq" and t.pending[1].held)
+        return not (t.pending[0] == "Acq" and t.pending[1].blocks(name))
 
     def projection(self):
         return {"mtx": {n: l.held for n, l in self.mutex.items()},
